@@ -92,6 +92,8 @@ def counting(value):
     COUNTER["calls"].append(value)
     if COUNTER["fail_at"] is not None and COUNTER["n"] == COUNTER["fail_at"]:
         raise COUNTER["exc"]("zcv.dt.counting: injected failure at call %d" % COUNTER["n"])
+    if HOOK is not None:
+        HOOK(value)
     return value
 
 
